@@ -222,6 +222,30 @@ _extend("C08", C02_UNITS + SA_KERNELS + PI_KERNELS + UNBATCH + [U(SAM, f"{SA}._c
 _extend("C06", UNBATCH)
 _extend("C03", SA_KERNELS)
 
+LEVEL_TEXT = {
+ "C01": "Proof of the code obligations the bounds rest on (sweep = Bellman backup, stop rule, greedy extraction, policy evaluation/stability, Gauss-Seidel sweep) for every problem, gamma, epsilon, initial values, batch layout; the bounds themselves are Lean theorems over those contracts (vi_span_bound, vi_maxdiff_bound, pi_bound, eval_bound_threshold, singh_yee, gs_*). One hypothesis of the PI bound is NOT established by the code (known finding). Bounded run-time harness on random tabular MDPs with exact policy evaluation as second line.",
+ "C02": "Proof: every kernel of value_iteration.py is symbolically executed from the real source with all sizes symbolic and its result shown equal to the textbook Bellman backup / first greedy maximiser; monotone / contraction / shift are Lean theorems about that operator.",
+ "C03": "Proof by self-composition: the same kernel on two solvers with different (devices, batches, batch size, padding) returns pointwise equal arrays of length N; callee chain under contract; semi-async bound for every partition in Lean. Real pmap/sharding behaviour only by the bounded multi-device harness.",
+ "C04": "Proof of the RVI step / loop contracts (gain = last component of B(V)-V, span test, class invariant gain = values[-1]) + Lean rvi_gain_within, rvi_monotone_bracket, policy_gain_bracket; harness with LP optimal gain.",
+ "C05": "Proof of the seven policy-iteration functions against Q/B_pi/greedy specs, the counting definition of n_changed, stop <=> no component changed, initial policy; eval accuracy bound in Lean.",
+ "C06": "Proof: scan-with-carry invariant of the real per-device sweep (conditional on fully-real batches, duplicate scatter indices nondeterministic), shuffle/reorder with assumed PRNG/argsort contracts, key threading, solve loop; fixed point in Lean.",
+ "C07": "Proof: ring-buffer invariant, both measures (partial-sum loop invariant), dispatch (infinite before a full period), plain-VI iterates, stop rule; gain bracket in Lean.",
+ "C08": "Proof of the five solve loops (iteration accounting, values = that many reference sweeps, first-stop rule, thresholds, initialisation) by loop invariants over a ghost trajectory.",
+ "C09": "Proof relative to assumed Orbax/OmegaConf contracts: carried state is saved, saved state is the current state at a save site labelled with the iteration (real save() body executed against the manager ADT), every saved field restored to its own attribute, everything else fixed by construction. Resume equality itself is exercised by the bounded harness (fresh process).",
+ "C10": "Proof relative to assumed library contracts: restore() error paths, overrides field by field (every subset of the optional arguments, symbolic values), state read from the original directory at the chosen step, load_checkpoint, has_full_config, config capture; template-structure obligation fails for the VI family (known finding).",
+ "C12": "Proof relative to the CheckpointManager ADT: cadence invariant of the five solve loops with the real save() body, final iteration always submitted, set-up effects (nothing for f = 0, max_to_keep, config.yaml iff reconstructible); retention itself is the ADT's assumed behaviour, conformance-tested against real Orbax.",
+ "C13": "Proof of sum-to-one / non-negativity by construction for Forest, De Moor and Mirjalili's demand factor with the distribution functions uninterpreted; Hendrix and Mirjalili's event enumeration bounded only (complete enumeration on a parameter grid).",
+ "C14": "Proof per dimension instance (state dimension <= 4, order limits symbolic): documented sizes, index of every listed state, in-box vectors map to the row holding them; closure of transition for useful life <= 5, lead time <= 4.",
+ "C15": "Proof, complete per dimension instance (useful life 1..5 x lead time 1..4 x issuing policy), all quantities symbolic: transition == independent scalar model, conservation, reward coefficient-wise.",
+ "C16": "Plumbing proved with distribution functions uninterpreted (which distribution, parameters, bins, ordering, censoring, product form, initial values); numerics of special functions trusted; Hendrix joint distribution bounded only.",
+ "C17": "Proof with two loop invariants: P entries = event mass per successor, R = expected reward, ValueError exactly when some row deviates by more than the tolerance, accepted rows renormalised to one; equality of the matrix backup in Lean. The clause 'message names the offending pair' is bounded only.",
+ "C18": "Proof for all n_states, max_batch_size, device counts: attribute consistency, layout, un-batching for ranks 3-5.",
+ "C19": "Proof per dimension count 1..4 with arbitrary integer bounds: enumeration, inverse index, clipping to the nearest box vector.",
+ "C20": "Proof: validators in both directions for all nine config classes, whole constructors of the five solvers reach normal return for every accepted parameter set (gamma = 0 excepted: known finding), format spec valid, verbosity mapping, config capture on both routes. Route equivalence and the float64 clause bounded only.",
+}
+for _p, _t in LEVEL_TEXT.items():
+    if _p in PROPS: PROPS[_p]["level_text"] = _t
+
 HOOK_COMMITS = []
 NOT_APPLICABLE = {
     "C11": "crash atomicity and writer-thread interleavings live inside Orbax's commit protocol, which is not code of this repository; contracts on mdpax's calls can only assume atomic commit, not decide it (DESIGN.md section 6 C11). The contract-shaped fragments (step label, no mutation of a state handed to an asynchronous save, latest-step selection) are discharged under C09/C10/C12.",
